@@ -22,6 +22,7 @@ func main() {
 	seed := flag.String("seed", "", "directory of a seeded change (patch.diff): evaluate -p on the tree with the change applied in memory")
 	seedAll := flag.Bool("seedall", false, "evaluate every seeded change under /verif/seeded with its property and print the kill matrix")
 	flag.Parse()
+	rules.Finalize()
 	if *seedAll {
 		os.Exit(rules.SeedMatrix())
 	}
